@@ -14,17 +14,19 @@ RULES = [
     (r"^Flow_Exec$", "C03 C04 C05 C10 C18"),
     (r"^Flow_Run$", "C01 C02 C03 C04 C05 C10 C18"),
     (r"^Flow_Prep$", "C10"), (r"^Flow_Post$", "C10 C18"), (r"^Flow_Connect$", "C03 C18"), (r"^NewFlow$", "C03 C10"),
-    (r"^CustomNode_ExecFallback$", "C17 C02"), (r"^CustomNode_", "C17 C01"),
+    # the adapters of function-style nodes are on the path of every callback: lifecycle, errors, retries, batch items
+    (r"^CustomNode_ExecFallback$", "C17 C02 C07"), (r"^CustomNode_Exec$", "C17 C01 C02 C04 C06 C07 C09 C11"),
+    (r"^CustomNode_Post$", "C17 C01 C04 C18"), (r"^CustomNode_", "C17 C01 C04"),
     (r"^BaseNode_(Prep|Exec)$", "C01"), (r"^BaseNode_Post$", "C01 C18"), (r"^BaseNode_ExecFallback$", "C02"),
     (r"^BaseNode_GetMaxRetries$", "C19 C02"), (r"^BaseNode_GetWait$", "C19 C20"),
     (r"^BaseNode_GetBatchConcurrency$", "C19 C08"), (r"^BaseNode_GetBatchErrorHandling$", "C19 C09"),
     (r"^BatchNode_Post$", "C06 C18"), (r"^BatchNode_Prep$", "C06"), (r"^BatchNodeBuilder_(Prep|Exec|Post)$", "C06"),
-    (r"^BatchNodeBuilder_WithExecFunc", "C19 C17"), (r"^BatchNodeBuilder_WithWait$", "C19 C20"), (r"^BatchNodeBuilder_WithMaxRetries$", "C19 C02"),
+    (r"^BatchNodeBuilder_WithExecFunc", "C19 C17 C02 C06 C07 C09 C11"), (r"^BatchNodeBuilder_WithWait$", "C19 C20"), (r"^BatchNodeBuilder_WithMaxRetries$", "C19 C02"),
     (r"^BatchNodeBuilder_WithBatchConcurrency$", "C19 C08"), (r"^BatchNodeBuilder_WithBatchErrorHandling$", "C19 C09"), (r"^BatchNodeBuilder_With", "C19"), (r"^NewBatchNode$", "C19"),
     (r"^NodeBuilder_(Prep|Exec|Post)$", "C01 C17"), (r"^NodeBuilder_ExecFallback$", "C02 C17"),
-    (r"^NodeBuilder_Get", "C19 C02"), (r"^NodeBuilder_With(Prep|Exec|Post)Func", "C19 C17"), (r"^NodeBuilder_WithWait$", "C19 C20"), (r"^NodeBuilder_WithMaxRetries$", "C19 C02"), (r"^NodeBuilder_With", "C19"),
+    (r"^NodeBuilder_Get", "C19 C02"), (r"^NodeBuilder_WithExecFunc", "C19 C17 C01 C02 C04"), (r"^NodeBuilder_With(Prep|Post)Func", "C19 C17 C01 C04"), (r"^NodeBuilder_WithExecFallbackFunc$", "C19 C02"), (r"^NodeBuilder_WithWait$", "C19 C20"), (r"^NodeBuilder_WithMaxRetries$", "C19 C02"), (r"^NodeBuilder_With", "C19"),
     (r"^NewNode$", "C19 C17"), (r"^NewBaseNode$", "C19"), (r"^customNodeOption_apply$", "C19 C17"),
-    (r"^With(Prep|Exec|Post)Func", "C19 C17"), (r"^WithExecFallbackFunc$", "C19 C02"),
+    (r"^WithExecFunc", "C19 C17 C01 C02 C04"), (r"^With(Prep|Post)Func", "C19 C17 C01 C04"), (r"^WithExecFallbackFunc$", "C19 C02 C07"),
     # a setting function carries the property that reads the setting
     (r"^WithWait$", "C19 C20"), (r"^WithMaxRetries$", "C19 C02"), (r"^WithBatchConcurrency$", "C19 C08"), (r"^WithBatchErrorHandling$", "C19 C09"),
     (r"^With", "C19"),
